@@ -229,17 +229,17 @@ def run_one(case, slow=1.0):
         elif o == "pc":
             args.append("--print-cmd")
         elif o.startswith("expect="):
-            args += ["--expect", dec(o[7:])]
+            args += ["--expect=" + dec(o[7:])]
         elif o.startswith("bind="):
-            args += ["--bind", dec(o[5:])]
+            args += ["--bind=" + dec(o[5:])]
         elif o.startswith("q="):
-            args += ["-q", dec(o[2:])]
+            args += ["--query=" + dec(o[2:])]
         elif o.startswith("tb="):
             args += ["--tiebreak=" + dec(o[3:])]      # one word: a list that starts with `-length` must not be read as a flag
         elif o == "sort":
             args.remove("--no-sort")
         elif o.startswith("d="):
-            args += ["-d", dec(o[2:])]
+            args += ["--delimiter=" + dec(o[2:])]
         elif o.startswith("hist="):
             import tempfile as _tf
             hf = _tf.NamedTemporaryFile(prefix="verif-hist-", suffix=".txt", delete=False, mode="w")
@@ -248,7 +248,7 @@ def run_one(case, slow=1.0):
             histfiles.append(hf.name)
             args += ["--history", hf.name]
         elif o.startswith("wn="):
-            args += ["--with-nth", dec(o[3:])]
+            args += ["--with-nth=" + dec(o[3:])]
         elif o.startswith("pv="):
             args += ["--preview", dec(o[3:])]
     items = [dec(t) for t in p[2].split(",") if t]
